@@ -127,29 +127,53 @@ func delInRangeIn(info *types.Info, body *ast.BlockStmt, fname string) []DelInRa
 	removers := removeClosures(info, body)
 	// find range statements anywhere (including inside closures)
 	ast.Inspect(body, func(n ast.Node) bool {
-		rs, ok := n.(*ast.RangeStmt)
-		if !ok || rs.Key == nil {
-			return true
-		}
-		keyID, ok := rs.Key.(*ast.Ident)
-		if !ok || keyID.Name == "_" {
-			return true
-		}
-		key := info.Defs[keyID]
-		if key == nil {
-			key = info.Uses[keyID]
-		}
-		if key == nil {
-			return true
-		}
-		if tv, ok := info.Types[rs.X]; ok {
-			if _, isSlice := tv.Type.Underlying().(*types.Slice); !isSlice {
+		var rs ast.Stmt
+		var loopBody *ast.BlockStmt
+		var key types.Object
+		sliceStr := "" // "" = any slice (index loops)
+		switch l := n.(type) {
+		case *ast.RangeStmt:
+			if l.Key == nil {
 				return true
 			}
+			keyID, ok := l.Key.(*ast.Ident)
+			if !ok || keyID.Name == "_" {
+				return true
+			}
+			key = info.Defs[keyID]
+			if key == nil {
+				key = info.Uses[keyID]
+			}
+			if tv, ok := info.Types[l.X]; ok {
+				if _, isSlice := tv.Type.Underlying().(*types.Slice); !isSlice {
+					return true
+				}
+			}
+			sliceStr = types.ExprString(l.X)
+			rs, loopBody = l, l.Body
+		case *ast.ForStmt:
+			// for …; …; i++  — a forward index loop
+			inc, ok := l.Post.(*ast.IncDecStmt)
+			if !ok || inc.Tok != token.INC {
+				return true
+			}
+			id, ok := inc.X.(*ast.Ident)
+			if !ok {
+				return true
+			}
+			key = info.Uses[id]
+			if key == nil {
+				key = info.Defs[id]
+			}
+			rs, loopBody = l, l.Body
+		default:
+			return true
 		}
-		sliceStr := types.ExprString(rs.X)
+		if key == nil {
+			return true
+		}
 		var stack []ast.Node
-		ast.Inspect(rs.Body, func(n ast.Node) bool {
+		ast.Inspect(loopBody, func(n ast.Node) bool {
 			if n == nil {
 				stack = stack[:len(stack)-1]
 				return true
@@ -164,7 +188,14 @@ func delInRangeIn(info *types.Info, body *ast.BlockStmt, fname string) []DelInRa
 			}
 			for i, st := range blk.List {
 				as, ok := st.(*ast.AssignStmt)
-				if !ok || len(as.Lhs) != 1 || len(as.Rhs) != 1 || types.ExprString(as.Lhs[0]) != sliceStr {
+				if !ok || len(as.Lhs) != 1 || len(as.Rhs) != 1 {
+					continue
+				}
+				sliceStr := sliceStr
+				if sliceStr == "" {
+					sliceStr = types.ExprString(as.Lhs[0])
+				}
+				if types.ExprString(as.Lhs[0]) != sliceStr {
 					continue
 				}
 				call, ok := as.Rhs[0].(*ast.CallExpr)
@@ -187,6 +218,13 @@ func delInRangeIn(info *types.Info, body *ast.BlockStmt, fname string) []DelInRa
 					switch nx := blk.List[i+1].(type) {
 					case *ast.ReturnStmt:
 						leaves = true
+					case *ast.IncDecStmt:
+						// index loops: `i--` right after the deletion re-examines the slot
+						if id, ok := nx.X.(*ast.Ident); ok && nx.Tok == token.DEC && info.Uses[id] == key {
+							if _, isFor := rs.(*ast.ForStmt); isFor {
+								leaves = true
+							}
+						}
 					case *ast.BranchStmt:
 						if nx.Tok == token.BREAK {
 							if nx.Label != nil {
@@ -247,6 +285,23 @@ func (t *T) badClosure(vs ...int) {
 		}
 	}
 }
+func (t *T) badIndexLoop(v int) {
+	list := t.xs
+	for i := 0; i < len(list); i++ {
+		if list[i] == v {
+			list = append(list[:i], list[i+1:]...)
+		}
+	}
+	t.xs = list
+}
+func (t *T) goodIndexLoop(v int) {
+	for i := 0; i < len(t.xs); i++ {
+		if t.xs[i] == v {
+			t.xs = append(t.xs[:i], t.xs[i+1:]...)
+			i--
+		}
+	}
+}
 func (t *T) good(v int) {
 	for i, x := range t.xs {
 		if x == v {
@@ -289,8 +344,8 @@ func controlDelInRange() {
 			bad++
 		}
 	}
-	if bad != 2 || good != 1 {
-		anchorFail("positive control for delete-inside-range failed: bad=%d good=%d (want 2,1)", bad, good)
+	if bad != 3 || good != 2 {
+		anchorFail("positive control for delete-inside-range failed: bad=%d good=%d (want 3,2)", bad, good)
 	}
 }
 
